@@ -512,6 +512,12 @@ fn builtin_round(args: Vec<Rc<Object>>) -> Result<Rc<Object>, String> {
     match args[0].as_ref() {
         Object::Float(f) => {
             if let Object::Integer(n) = args[1].as_ref() {
+                // 10^18 is the largest power of ten an i64 holds
+                if !(0..=18).contains(n) {
+                    return Err(String::from(
+                        "second argument should be in the range 0 to 18",
+                    ));
+                }
                 let multiplier = 10i64.pow(*n as u32);
                 let rounded = (f * multiplier as f64).round() / multiplier as f64;
                 Ok(Rc::new(Object::Float(rounded)))
